@@ -143,6 +143,31 @@ def planar_events(rng, thorough):
                 yield "Ad2", f, N * d, (lambda T=T: adjoint2(T.copy(order="F"))), "base.adjoint2(F-order)"
 
 
+def _kept_then_log(b, dd):
+    Td = b.trexp(dd)
+    d1 = np.asarray(b.tr2delta(Td), dtype=float)
+    return d1 - np.asarray(b.trlog(Td, twist=True), dtype=float)
+
+
+def _kept_then_inv(b, dd):
+    Td = b.trexp(dd * 1e3 if np.linalg.norm(dd) < 1e-4 else dd)
+    b.tr2delta(Td)
+    return b.trinv(Td) @ Td - np.eye(4)
+
+
+def _noise_twist(b, dd, dm, which):
+    v = dd[:3] / dm * 3.0
+    out = []
+    for wn in (1e-17, 3e-16):
+        S = np.r_[v, np.array([1.0, 0.0, -2.0]) * wn]
+        if which == 0:
+            u, n = b.unittwist_norm(S)
+            out.append(np.asarray(u, dtype=float) * float(n) - S)
+        else:
+            out.append(np.asarray(b.trexp(S), dtype=float) - b.transl(v))
+    return np.concatenate([np.ravel(x) for x in out])
+
+
 def series_expm(A):
     """matrix exponential by its defining power series with scaling and squaring (trusted, 12 lines)"""
     A = np.asarray(A, dtype=float)
@@ -219,7 +244,13 @@ def laws(j, rng, n):
                                lambda: SE3().delta(SE3(b.trexp(dd), check=False)) - np.asarray(Twist3(SE3(b.trexp(dd), check=False)).S, dtype=float), 2.0 * dm * dm + 1e-15),
                               ("tr2delta(delta2tr(d))=d", lambda: b.tr2delta(b.delta2tr(dd)) - dd, 1e-9 * dm + 1e-18),
                               ("tr2delta(exp d)~d (first order)", lambda: b.tr2delta(b.trexp(dd)) - dd, 2.0 * dm * dm + 1e-15),
-                              ("SE3.Delta~exp(d)", lambda: SE3.Delta(dd).A - b.trexp(dd), 2.0 * dm * dm + 1e-15)):
+                              ("SE3.Delta~exp(d)", lambda: SE3.Delta(dd).A - b.trexp(dd), 2.0 * dm * dm + 1e-15),
+                              # one array kept by the caller and used again after tr2delta (as a caller iterating a servo loop does)
+                              ("tr2delta(Td) then log(Td), one kept array", lambda: _kept_then_log(b, dd), 2.0 * dm * dm + 1e-15),
+                              ("tr2delta(Td) then Td^-1 Td, one kept array", lambda: _kept_then_inv(b, dd), 1e-9),
+                              # a translational twist whose rotational part is rounding noise: unit * magnitude = S, exp = translation
+                              ("unittwist_norm(noise w): unit*norm=S", lambda: _noise_twist(b, dd, dm, 0), 1e-12),
+                              ("trexp(noise w)=transl(v)", lambda: _noise_twist(b, dd, dm, 1), 1e-12)):
             cid = ("law", name, band2)
             try:
                 d = float(np.max(np.abs(fn())))
